@@ -33,10 +33,10 @@ Proof. reflexivity. Qed.
 
 (* ---------- follows ---------- *)
 Lemma item_outcome_app p1 : forall p2 a t,
-  PFa.item_outcome (p1 ++ p2) a t =
-  match PFa.item_outcome p1 a t with inl a' => PFa.item_outcome p2 a' t | inr e => inr e end.
+  MFa.item_outcome (p1 ++ p2) a t =
+  match MFa.item_outcome p1 a t with inl a' => MFa.item_outcome p2 a' t | inr e => inr e end.
 Proof.
-  induction p1 as [|o p1 IH]; intros p2 a t; cbn [app PFa.item_outcome]; [reflexivity|].
+  induction p1 as [|o p1 IH]; intros p2 a t; cbn [app MFa.item_outcome]; [reflexivity|].
   destruct (MFa.rop_size o <=? a); [apply IH|reflexivity].
 Qed.
 
@@ -53,7 +53,7 @@ Section Over.
      first a will be delivered before the transport ends with t; X is read by the takes [plan];
      the call returns v when all of X arrives, and the plan's error otherwise *)
   Definition follows {A} (r : res (A * S)) (plan : list MFa.rop) (v : A) (d : bytes) (a t : N) : Prop :=
-    match PFa.item_outcome plan a t with
+    match MFa.item_outcome plan a t with
     | inl a' => exists st', r = Ok (v, st') /\ fl st' = (firstn (N.to_nat a') d, t) /\ inv st'
     | inr e => r = Err (io_code e)
     end.
@@ -68,7 +68,7 @@ Section Over.
     follows (bind r1 k) (p1 ++ p2) v2 d a t.
   Proof.
     unfold follows. intros H1 K. rewrite item_outcome_app.
-    destruct (PFa.item_outcome p1 a t) as [a'|e].
+    destruct (MFa.item_outcome p1 a t) as [a'|e].
     - destruct H1 as (st' & -> & Hf & Hi). cbn [bind]. apply (K st' a' Hi Hf).
     - rewrite H1. reflexivity.
   Qed.
@@ -77,7 +77,7 @@ Section Over.
     inv st -> fl st = (firstn (N.to_nat a) (x ++ d), t) -> lenN x = n ->
     follows (take st n) [MFa.RF n] x d a t.
   Proof.
-    intros Hi Hf Hn. unfold follows, io_take. cbn [PFa.item_outcome MFa.rop_size PFa.short_code].
+    intros Hi Hf Hn. unfold follows, io_take. cbn [MFa.item_outcome MFa.rop_size MFa.short_code].
     pose proof (read_full_sound S rd fl inv Hsound n st Hi) as R. rewrite Hf in R.
     unfold read_full_flat in R.
     assert (Hlen : lenN (firstn (N.to_nat a) (x ++ d)) = N.min a (n + lenN d)).
@@ -507,7 +507,7 @@ Section Over.
     exists ws, write_all c ms = map Ok ws /\
       forall st a t n0, inv st -> fl st = (firstn (N.to_nat a) (concat ws), t) ->
         a <= PFa.plan_size (sess_plan c ms) ->
-        exists n e, PFa.plan_outcome (sess_plan c ms ++ [[MFa.RF 1]]) a t n0 = (n0 + n, Some e) /\
+        exists n e, MFa.plan_outcome (sess_plan c ms ++ [[MFa.RF 1]]) a t n0 = (n0 + n, Some e) /\
           g_read_all S take fuel s st acc = (rev acc ++ firstn (N.to_nat n) ms, io_code e).
   Proof.
     induction 1 as [|m r W Wr IH]; intros c s acc fuel Hc Hin Hidle Hf Hfs.
@@ -528,10 +528,10 @@ Section Over.
       + lia.
       + eapply Forall_impl; [|exact Ht]. cbn. intros x Hx. lia.
       + exists (w :: ws). split; [cbn [write_all]; rewrite Hw, Hws; reflexivity|].
-        intros st a t n0 Hi Hfl Ha. cbn [concat] in Hfl. cbn [sess_plan app PFa.plan_outcome].
+        intros st a t n0 Hi Hfl Ha. cbn [concat] in Hfl. cbn [sess_plan app MFa.plan_outcome].
         pose proof (Hr1 (Datatypes.S f) (length (m_payload m)) st (concat ws) a t ltac:(lia) ltac:(lia) Hi Hfl) as Hfo.
         unfold follows in Hfo. cbn [g_read_all].
-        destruct (PFa.item_outcome (msg_plan m c (length (m_payload m))) a t) as [a'|e] eqn:Ho.
+        destruct (MFa.item_outcome (msg_plan m c (length (m_payload m))) a t) as [a'|e] eqn:Ho.
         * destruct Hfo as (st' & -> & Hf' & Hi').
           destruct (PFa.item_outcome_inl _ _ _ _ Ho) as (Hs & Ha').
           cbn [sess_plan PFa.plan_size fold_right] in Ha. fold (PFa.plan_size (sess_plan (next_chunk c m) r)) in Ha.
@@ -744,7 +744,7 @@ Theorem io_read_all_spec ms fuel str a t acc n0 :
   exists ws, write_all DEFCHUNK ms = map Ok ws /\
     (a <= lenN (concat ws) -> IO.flat str = (firstn (N.to_nat a) (concat ws), t) ->
      exists n e,
-       PFa.plan_outcome (MFa.msgs_plan MFa.DEFCHUNK (map rmsg_of ms) ++ [[MFa.RF 1]]) a t n0 = (n0 + n, Some e) /\
+       MFa.plan_outcome (MFa.msgs_plan MFa.DEFCHUNK (map rmsg_of ms) ++ [[MFa.RF 1]]) a t n0 = (n0 + n, Some e) /\
        g_read_all (bufr stream) (io_take (bufr stream) (br_read stream tr_read)) fuel rs0 (bufr_new str) acc
        = (rev acc ++ firstn (N.to_nat n) ms, io_code e)).
 Proof.
@@ -763,7 +763,7 @@ Qed.
 (* the handshake phase on the raw transport *)
 Lemma hs_phase str (b : bytes) t : IO.flat str = (b, t) ->
   let '(d1, e1, s1) := MFa.run_items stream tr_read MFa.hs_plan str [] in
-  PFa.plan_outcome MFa.hs_plan (lenN b) t 0 = (N.of_nat (length d1), e1) /\
+  MFa.plan_outcome MFa.hs_plan (lenN b) t 0 = (N.of_nat (length d1), e1) /\
   (e1 = None -> IO.flat s1 = (skipn (N.to_nat 3073) b, t) /\ 3073 <= lenN b /\ N.of_nat (length d1) = 3) /\
   (forall e, e1 = Some e -> N.of_nat (length d1) < 3).
 Proof.
@@ -799,7 +799,7 @@ Theorem io_session_spec (hs : bool) ms fuel str (hsb : bytes) k t :
   exists ws, write_all DEFCHUNK ms = map Ok ws /\
     (k <= lenN (hsb ++ concat ws) -> IO.flat str = (firstn (N.to_nat k) (hsb ++ concat ws), t) ->
      exists n e,
-       PFa.plan_outcome (PFa.rtmp_plan hs (map rmsg_of ms)) k t 0 = (n, Some e) /\
+       MFa.plan_outcome (PFa.rtmp_plan hs (map rmsg_of ms)) k t 0 = (n, Some e) /\
        io_session hs fuel str =
          (N.min n (if hs then 3 else 0), firstn (N.to_nat (n - (if hs then 3 else 0))) ms, io_code e)).
 Proof.
